@@ -340,6 +340,9 @@ macro_rules! c06_names {
             }
             let s = unsafe { String::from_utf8_unchecked(n.to_vec()) };
             let f = zfd_named(s);
+            let mut saw_some = false;
+            let mut saw_none = false;
+            let mut saw_kept = false;
             if $mode == 0 {
             // validated accessor
             let want = ref_enclosed(&n);
@@ -353,11 +356,11 @@ macro_rules! c06_names {
                         assert_eq!(pb[i], n[i]);
                         i += 1;
                     }
-                    kani::cover!(true);
+                    saw_some = true;
                 }
                 None => {
                     assert!(!want, "enclosed_name rejected a safe name");
-                    kani::cover!(true);
+                    saw_none = true;
                 }
             }
             } else {
@@ -374,9 +377,14 @@ macro_rules! c06_names {
             }
             // consequence: relative, no NUL, no '..' component (checked on the reference form)
             assert!(el == 0 || exp[0] != b'/');
-            kani::cover!(el > 0 || sel[0] == 4 || sel[0] == 2 || sel[0] == 3 || sel[0] == 1);
+            saw_kept = el > 0;
             core::mem::forget(m);
             }
+            // reachability witnesses (the branch not compiled for this mode is skipped)
+            kani::cover!($mode != 0 || saw_some || $first == 2); // a leading '/' is never accepted
+            kani::cover!($mode != 0 || saw_none);
+            kani::cover!($mode == 0 || saw_kept);
+            kani::cover!($mode == 0 || !saw_kept);
             core::mem::forget(f);
         }
     };
@@ -384,30 +392,30 @@ macro_rules! c06_names {
 /// C06 enclosed_name, every name of length 2 over the path-relevant alphabet {a . / \ NUL}
 /// (25 names in one query): Some exactly when an independent lexical walk says the name is
 /// relative, NUL-free and never climbs above its start, and then the name is returned unchanged.
-// @h prop=C06,C07 tier=dev t=900 mem=10 name=c06_enclosed_len2
-c06_names!(c06_enclosed_len2, 0, 2, -1, 8);
+// @h prop=C06,C07 tier=quick t=300 mem=4 name=c06_enclosed_len2
+c06_names!(c06_enclosed_len2, 0, 2, -1, 4);
 /// C06 enclosed_name, every name of length 3 over {a . / \ NUL} (125 names).
-// @h prop=C06,C07 tier=dev t=1500 mem=16 name=c06_enclosed_len3
-c06_names!(c06_enclosed_len3, 0, 3, -1, 9);
+// @h prop=C06,C07 tier=quick t=360 mem=6 name=c06_enclosed_len3
+c06_names!(c06_enclosed_len3, 0, 3, -1, 5);
 /// C06 enclosed_name, names of length 4 starting with 'a'.
-// @h prop=C06 tier=dev t=3000 mem=20 name=c06_enclosed_len4_a
-c06_names!(c06_enclosed_len4_a, 0, 4, 0, 10);
+// @h prop=C06 tier=thorough t=900 mem=10 name=c06_enclosed_len4_a
+c06_names!(c06_enclosed_len4_a, 0, 4, 0, 6);
 /// C06 enclosed_name, names of length 4 starting with '.'.
-// @h prop=C06 tier=dev t=3000 mem=20 name=c06_enclosed_len4_dot
-c06_names!(c06_enclosed_len4_dot, 0, 4, 1, 10);
+// @h prop=C06 tier=thorough t=900 mem=10 name=c06_enclosed_len4_dot
+c06_names!(c06_enclosed_len4_dot, 0, 4, 1, 6);
 /// C06 enclosed_name, names of length 4 starting with '/'.
-// @h prop=C06 tier=dev t=3000 mem=20 name=c06_enclosed_len4_slash
-c06_names!(c06_enclosed_len4_slash, 0, 4, 2, 10);
+// @h prop=C06 tier=thorough t=900 mem=10 name=c06_enclosed_len4_slash
+c06_names!(c06_enclosed_len4_slash, 0, 4, 2, 6);
 /// C06 enclosed_name, names of length 4 starting with '\'.
-// @h prop=C06 tier=dev t=3000 mem=20 name=c06_enclosed_len4_bslash
-c06_names!(c06_enclosed_len4_bslash, 0, 4, 3, 10);
+// @h prop=C06 tier=thorough t=900 mem=10 name=c06_enclosed_len4_bslash
+c06_names!(c06_enclosed_len4_bslash, 0, 4, 3, 6);
 /// C06 mangled_name, every name of length 1 over {a . / \ NUL}: equals the reference (cut at
 /// NUL, \ -> /, only ordinary components in order) and is relative.
-// @h prop=C06 tier=dev t=900 mem=12 name=c06_mangled_len1
-c06_names!(c06_mangled_len1, 1, 1, -1, 8);
+// @h prop=C06 tier=dev t=900 mem=26 name=c06_mangled_len1
+c06_names!(c06_mangled_len1, 1, 1, -1, 4);
 /// C06 mangled_name, every name of length 2 over {a . / \ NUL}.
-// @h prop=C06 tier=dev t=3000 mem=24 name=c06_mangled_len2
-c06_names!(c06_mangled_len2, 1, 2, -1, 8);
+// @h prop=C06 tier=dev t=600 mem=10 name=c06_mangled_len2
+c06_names!(c06_mangled_len2, 1, 2, -1, 5);
 /// C06 mangled_name, every name of length 3 over {a . / \ NUL}.
-// @h prop=C06 tier=dev t=3600 mem=30 name=c06_mangled_len3
-c06_names!(c06_mangled_len3, 1, 3, -1, 9);
+// @h prop=C06 tier=dev t=600 mem=10 name=c06_mangled_len3
+c06_names!(c06_mangled_len3, 1, 3, -1, 6);
